@@ -530,3 +530,138 @@ Theorem result_triple_mixed_refuted :
   recover_triple (apply (ops_triple_cur 2) (fs_of s_old_triple)) = Ok (2, 2) /\
   recover_triple (apply (firstn 2 (ops_triple_cur 2)) (fs_of s_old_triple)) = Ok (2, 1).
 Proof. vm_compute. repeat split. Qed.
+
+(* ------------------------------------------------------------------ what "new" is for a creation *)
+Lemma acc_get_set acc p r q : acc_get (acc_set acc p r) q = if q =? p then Some r else acc_get acc q.
+Proof.
+  induction acc as [|[a ra] acc IH]; simpl.
+  - destruct (Nat.eqb_spec p q), (Nat.eqb_spec q p); subst; try reflexivity; congruence.
+  - destruct (Nat.eqb_spec a p); simpl.
+    + subst. destruct (Nat.eqb_spec p q), (Nat.eqb_spec q p); subst; try reflexivity; congruence.
+    + rewrite IH. destruct (Nat.eqb_spec a q), (Nat.eqb_spec q p); subst; try reflexivity; congruence.
+Qed.
+
+Lemma ops_pieces_spec : forall ps acc s,
+  (forall p r, acc_get acc p = Some r -> s (PData p) = Some (DataF true r)) ->
+  (forall p, acc_get (snd (ops_pieces acc ps)) p =
+             match acc_get acc p with
+             | Some r => Some (r ++ recs_for ps p)
+             | None => if has_piece ps p then Some (recs_for ps p) else None
+             end) /\
+  (forall p r, acc_get (snd (ops_pieces acc ps)) p = Some r -> apply (fst (ops_pieces acc ps)) s (PData p) = Some (DataF true r)).
+Proof.
+  induction ps as [|[p rs] ps IH]; intros acc s Hinv.
+  - simpl. split.
+    + intro q. destruct (acc_get acc q); [rewrite app_nil_r|]; reflexivity.
+    + exact Hinv.
+  - simpl ops_pieces. destruct (acc_get acc p) as [old|] eqn:Eg.
+    + set (acc1 := acc_set acc p (old ++ rs)).
+      set (s1 := apply1 s (Put (PData p) (DataF true (old ++ rs)))).
+      assert (Hinv1 : forall q r, acc_get acc1 q = Some r -> s1 (PData q) = Some (DataF true r)).
+      { intros q r. unfold acc1, s1. rewrite acc_get_set. simpl. destruct (q =? p) eqn:E.
+        - intro H. injection H as <-. reflexivity.
+        - apply Hinv. }
+      destruct (IH acc1 s1 Hinv1) as [H1 H2]. destruct (ops_pieces acc1 ps) as [o a] eqn:Eo. simpl in *.
+      split.
+      * intro q. rewrite H1. unfold acc1. rewrite acc_get_set. unfold recs_for. simpl. unfold has_piece. simpl.
+        rewrite (Nat.eqb_sym p q). destruct (q =? p) eqn:E.
+        { apply Nat.eqb_eq in E. subst. rewrite Eg, <- app_assoc. reflexivity. }
+        { simpl. destruct (acc_get acc q); reflexivity. }
+      * intros q r Hq. change (apply o s1 (PData q) = Some (DataF true r)). apply H2. exact Hq.
+    + set (acc1 := acc_set acc p rs).
+      set (s1 := apply [Put (PDir p) Dir; Put (PData p) (DataF false []); Put (PData p) (DataF true []); Put (PData p) (DataF true rs)] s).
+      assert (Hinv1 : forall q r, acc_get acc1 q = Some r -> s1 (PData q) = Some (DataF true r)).
+      { intros q r. unfold acc1, s1. rewrite acc_get_set. simpl. destruct (q =? p) eqn:E.
+        - intro H. injection H as <-. reflexivity.
+        - apply Hinv. }
+      destruct (IH acc1 s1 Hinv1) as [H1 H2]. destruct (ops_pieces acc1 ps) as [o a] eqn:Eo. simpl in *.
+      split.
+      * intro q. rewrite H1. unfold acc1. rewrite acc_get_set. unfold recs_for. simpl. unfold has_piece. simpl.
+        rewrite (Nat.eqb_sym p q). destruct (q =? p) eqn:E.
+        { apply Nat.eqb_eq in E. subst. rewrite Eg. reflexivity. }
+        { simpl. destruct (acc_get acc q); reflexivity. }
+      * intros q r Hq. change (apply o s1 (PData q) = Some (DataF true r)). apply H2. exact Hq.
+Qed.
+
+Lemma fs_insert_in x k l : In x (fs_insert k l) <-> x = k \/ In x l.
+Proof.
+  induction l as [|y l IH]; simpl; [intuition|].
+  destruct (k <=? y); simpl; [intuition|]. rewrite IH. intuition.
+Qed.
+
+Lemma fs_sort_in x l : In x (fs_sort l) <-> In x l.
+Proof.
+  unfold fs_sort. induction l as [|y l IH]; simpl; [tauto|]. rewrite fs_insert_in, IH. intuition.
+Qed.
+
+Lemma acc_get_in acc i : In i (map fst acc) <-> exists r, acc_get acc i = Some r.
+Proof.
+  induction acc as [|[a ra] acc IH]; simpl.
+  - split; [tauto|intros [r H]; discriminate].
+  - destruct (Nat.eqb_spec a i).
+    + split; [eauto|auto].
+    + rewrite <- IH. intuition.
+Qed.
+
+Lemma collect_data_map s ids f :
+  (forall i, In i ids -> patch_data (s (PData i)) = Some (f i)) -> collect_data s ids = Some (map (fun i => (i, f i)) ids).
+Proof.
+  induction ids as [|i ids IH]; intro H; simpl; [reflexivity|].
+  rewrite (H i (or_introl eq_refl)), IH by (intros; apply H; right; assumption). reflexivity.
+Qed.
+
+Lemma ops_pieces_paths : forall ps acc,
+  Forall (fun o => exists p, op_path o = PDir p \/ op_path o = PData p) (fst (ops_pieces acc ps)).
+Proof.
+  induction ps as [|[p rs] ps IH]; intro acc; simpl; [constructor|].
+  destruct (acc_get acc p) as [old|].
+  - specialize (IH (acc_set acc p (old ++ rs))). destruct (ops_pieces (acc_set acc p (old ++ rs)) ps). simpl in *.
+    constructor; [exists p; auto|exact IH].
+  - specialize (IH (acc_set acc p rs)). destruct (ops_pieces (acc_set acc p rs) ps). simpl in *.
+    repeat (constructor; [exists p; simpl; auto|]). exact IH.
+Qed.
+
+Lemma recs_for_nonempty ps i :
+  (forall pc, In pc ps -> snd pc <> []) -> has_piece ps i = true -> recs_for ps i <> [].
+Proof.
+  intros Hne H. unfold has_piece in H. apply existsb_exists in H. destruct H as [[p rs] [Hin E]]. simpl in E.
+  intro Hnil. specialize (Hne _ Hin). simpl in Hne. destruct rs as [|r rs]; [congruence|].
+  assert (Hr : In r (recs_for ps i)).
+  { unfold recs_for. apply in_flat_map. exists (p, r :: rs). split; [exact Hin|]. simpl. rewrite E. left. reflexivity. }
+  rewrite Hnil in Hr. destruct Hr.
+Qed.
+
+(* an uninterrupted creation is readable and holds, patch by patch, exactly the records of that patch's
+   pieces in the order they were handed to the writer *)
+Theorem create_complete strict ps s0 :
+  ps <> [] -> (forall pc, In pc ps -> snd pc <> []) ->
+  recover_cat strict (apply (ops_create ps) s0) = Ok (map (fun i => (i, recs_for ps i)) (created_ids ps)).
+Proof.
+  intros Hps Hne. unfold ops_create. rewrite !apply_app.
+  set (s1 := apply (ops_create_body ps) s0). set (s2 := apply (ops_create_ids ps) s1).
+  set (ids := created_ids ps). set (sF := apply (ops_meta_all ids) s2).
+  pose proof (ops_metadata_shape empty_fs ids) as Hsh. rewrite <- ops_meta_all_eq in Hsh.
+  destruct (ops_pieces_spec ps [] (apply1 s0 (Put PRoot Dir))) as [H1 H2]; [intros p r H; discriminate|].
+  assert (Hroot : sF PRoot = Some Dir).
+  { unfold sF. rewrite meta_puts_untouched; [|exact Hsh|discriminate]. unfold s2, ops_create_ids. simpl.
+    unfold s1, ops_create_body. change (apply (Put PRoot Dir :: fst (ops_pieces [] ps)) s0) with (apply (fst (ops_pieces [] ps)) (apply1 s0 (Put PRoot Dir))).
+    rewrite apply_untouched; [simpl; reflexivity|]. eapply Forall_impl; [|apply ops_pieces_paths]. simpl. intros o [p [E|E]]; rewrite E; discriminate. }
+  assert (Hids : sF PIds = Some (IdsF ids)).
+  { unfold sF. rewrite meta_puts_untouched; [|exact Hsh|discriminate]. reflexivity. }
+  assert (Hdata : forall i, In i ids -> patch_data (sF (PData i)) = Some (recs_for ps i)).
+  { intros i Hin. unfold ids, created_ids in Hin. apply fs_sort_in, acc_get_in in Hin. destruct Hin as [r Hr].
+    pose proof (H2 i r Hr) as Hd. rewrite H1 in Hr. simpl in Hr.
+    destruct (has_piece ps i) eqn:Ehp; [|discriminate]. injection Hr as <-.
+    unfold sF. rewrite meta_puts_untouched; [|exact Hsh|discriminate]. unfold s2, ops_create_ids. simpl.
+    unfold s1, ops_create_body. change (apply (Put PRoot Dir :: fst (ops_pieces [] ps)) s0) with (apply (fst (ops_pieces [] ps)) (apply1 s0 (Put PRoot Dir))).
+    rewrite Hd. pose proof (recs_for_nonempty ps i Hne Ehp) as Hn. destruct (recs_for ps i); [congruence|reflexivity]. }
+  assert (Hnil : is_nil ids = false).
+  { destruct ps as [|[p rs] ps']; [congruence|].
+    assert (Hin : In p ids).
+    { unfold ids, created_ids. apply fs_sort_in, acc_get_in. rewrite H1. simpl. unfold has_piece. simpl. rewrite Nat.eqb_refl. simpl. eauto. }
+    destruct ids; [destruct Hin|reflexivity]. }
+  fold sF. unfold recover_cat. rewrite Hroot, Hids, Hnil, andb_false_r.
+  rewrite collect_all_fine.
+  - rewrite (collect_data_map sF ids (recs_for ps) Hdata). reflexivity.
+  - intros i Hin. unfold sF. rewrite ops_meta_all_eq. apply meta_final. right. split; [exact Hin|reflexivity].
+Qed.
